@@ -38,7 +38,7 @@ MODULES = [
 LIST_CLASSES = ("AttrInt64s", "AttrFloat32s", "AttrStrings", "AttrTensors")
 ALL_CLASSES = ("AttrFloat32", "AttrInt64", "AttrString", "AttrTensor", "AttrGraph", "AttrType", "AttrDtype") + LIST_CLASSES
 ITERABLE_MARK = ("Iterable", "Sequence", "List", "Tuple", "list", "tuple")
-SCAN_VERSION = "3"
+SCAN_VERSION = "4"
 
 
 def _scan_module(mid: str, text: str) -> dict:
@@ -99,7 +99,14 @@ def _scan_module(mid: str, text: str) -> dict:
                     continue
                 if not (isinstance(arg0, ast.Name) and arg0.id in params):
                     irregular.append(f"{where}: value is {ast.unparse(arg0)[:60] if arg0 is not None else None}, not a parameter")
-                    continue
+                    # keep a row all the same (so that the oracle exercises it) if a parameter of that name feeds it
+                    inner = [n.id for n in ast.walk(arg0) if isinstance(n, ast.Name) and n.id in params] if arg0 is not None else []
+                    if kw.arg in inner or onnx_name in inner:
+                        arg0 = ast.Name(id=kw.arg if kw.arg in inner else onnx_name, ctx=ast.Load())
+                    elif inner:
+                        arg0 = ast.Name(id=inner[0], ctx=ast.Load())
+                    else:
+                        continue
                 p = arg0.id
                 ann = ast.unparse(params[p].annotation) if params[p].annotation is not None else ""
                 d = defaults.get(p)
